@@ -23,6 +23,7 @@ def _capitalised_args(bare: str) -> bool:
     return all(x[:1].isupper() for x in leaves) and not re.search(r'\d+\s*[,>]|<\s*\d', bare)
 
 
+KIND = ['method']  # what the guards being compared belong to
 MODCLS = [{}]  # C++ spelling of the module's own template instantiations -> MATLAB class name
 
 
@@ -31,8 +32,12 @@ def arg_family(cpp_type: str) -> str:
     if '<' in t.bare:
         # an instantiation the toolbox has a class for is tested against that class; the
         # MATLAB name of any other templated type is a label only
-        if t.bare in MODCLS[0] and (STRICT[0] or _capitalised_args(t.bare) or not
-                                    findings.is_open('F-37-matlab-guard-name-of-instantiation')):
+        # (constructor and free-function guards map the arguments to MATLAB types: F-37 whatever
+        # the arguments are)
+        if t.bare in MODCLS[0] and (STRICT[0] or not
+                                    findings.is_open('F-37-matlab-guard-name-of-instantiation') or
+                                    (_capitalised_args(t.bare) and
+                                     KIND[0] in ('method', 'static'))):
             return 'CLASS:' + MODCLS[0][t.bare]
         return 'TEMPLATED'
     k = family_key(t.bare)
@@ -164,6 +169,9 @@ def check_overload(site, r, ov, kind, cls, where):
                 if '::' not in t.bare and cls and t.bare in [e[0] for e in cls['enums']]:
                     # an unqualified name inside the class is the class's own enum
                     want_cls = cls['matlab'] + '.' + t.bare
+                elif '::' not in t.bare and cls and t.bare in cls.get('ns_enums', []):
+                    # ... or, failing that, the enum of the class's namespace
+                    want_cls = '.'.join(list(cls['path']) + [t.bare])
                 if mm and mm.group(1) != want_cls:
                     probs.append(('C06.return', '%s: out[%d] is wrapped as MATLAB class %r, the '
                                   'enumeration generated for %s is %r' % (
@@ -214,6 +222,7 @@ def check(case):
     MODCLS[0] = {c['cpp']: c['matlab'] for c in exp['classes'] if '<' in c['cpp']}
 
     def group(sites, overloads, kind, cls, label):
+        KIND[0] = kind
         # (1) exactly the expected arities / type families are offered
         want = collections.Counter((len(o['explicit']), tuple(
             arg_family(a[0]) for a in o['explicit'])) for o in overloads)
